@@ -334,6 +334,13 @@ void RefHash2KeysTableOf<TVal, THasher>::transferElement(const void* const key1,
                     new (fMemoryManager->allocate(sizeof(RefHash2KeysTableBucketElem<TVal>)))
                     RefHash2KeysTableBucketElem<TVal>(key2, curElem->fKey2, curElem->fData, fBucketList[hashVal2]);
                 fBucketList[hashVal2] = newBucket;
+
+                // If both primary keys hash to the same bucket the new element
+                // is now the head of the list we are walking: when the element
+                // just unlinked was the first one, the rest of the walk comes
+                // after the new element, not after the head pointer.
+                if (hashVal2 == hashVal && !lastElem)
+                    lastElem = newBucket;
             }
 
             RefHash2KeysTableBucketElem<TVal>* elemToDelete = curElem;
